@@ -576,4 +576,39 @@ theorem objectlibs_key_without_fontinfo_counterexample :
     ∃ f, loadFont objLibsNoInfoTree = .ok f ∧ saveFont f = .err .objectLibsKey := by
   exact ⟨_, rfl, rfl⟩
 
+/-! ## source-level tie, reader side (see `Props/C01.lean`, section "source-level tie") -/
+
+/-- what the loader of the model gives for every optional file that is absent -/
+def modelAbsentReads : List (String × String) :=
+  [("data", "empty"), ("features.fea", "empty"), ("fontinfo.plist", "empty"), ("groups.plist", "empty"),
+   ("images", "empty"), ("kerning.plist", "empty"), ("layerinfo.plist", "none+empty"),
+   ("layerinfo.plist:color", "none"), ("layerinfo.plist:lib", "empty"), ("lib.plist", "empty")]
+
+/-- what `load_impl` / `Layer::load_impl` / `parse_layer_info` give in the source when a file or key is absent is
+    what `loadFont` gives in the model -/
+theorem source_absent_reads_match_model : Generated.RoundTrip.absentReads = modelAbsentReads := by decide
+
+/-- a tree holding only the mandatory files -/
+def minimalTree : Tree tokenParts where
+  creator := none
+  fv := 3
+  minor := 0
+  fontinfo := none
+  lib := none
+  groups := none
+  kerning := none
+  features := none
+  layercontents := [("public.default", "glyphs")]
+  dirs := [("glyphs", { contents := [], info := none, glifs := [] })]
+  data := []
+  images := []
+
+/-- `modelAbsentReads` describes the model: loading a tree without the optional files gives the empty value of
+    every part (which is exactly the value at which `saveFont` does not write the file: `model_file_gates`) -/
+theorem model_absent_files_read_as_empty :
+    ∃ f, loadFont minimalTree = .ok f ∧ f.lib = [] ∧ f.groups = [] ∧ f.kerning = [] ∧ f.features = [] ∧
+      f.info.isEmpty = true ∧ f.data = [] ∧ f.images = [] ∧
+      (f.layers.all fun l => l.color.isNone && l.lib.isEmpty) = true :=
+  ⟨_, rfl, rfl, rfl, rfl, rfl, rfl, rfl, rfl, rfl⟩
+
 end RT
